@@ -8,6 +8,10 @@
 //! in the session (history). `... ids`: `Tzdb.names`, then `Tzdb.check` for every name in four spellings
 //! and for mutated non-names.
 //!
+//! `... synth <nzones> [part nparts]`: synthetic TZif data (harness/src/synth_tzif.rs): for each of `nzones` seeded descriptions
+//! (table shape x footer shape, see `synth_desc`): `Tzdb.define` (bytes written and handed to `Tzif::from_bytes`),
+//! `Tzdb.table` (the tzif crate's parse of those bytes), then the same kinds of queries as for real zones.
+//!
 //! The driver only chooses inputs (its own arithmetic below is used for nothing else); every answer is
 //! judged by spec/trace/Trace_Tzif.tla from the table event.
 use super::Tracer;
@@ -55,9 +59,9 @@ fn rule_local(r: &Value, y: i64) -> i64 {
     day * 86_400 + t
 }
 
-struct Q { op: &'static str, args: Value }
+pub struct Q { pub op: &'static str, pub args: Value }
 
-fn queries_for(zone: &str, tab: &Value, r: &mut Rng, cap: usize, thorough: bool) -> Vec<Q> {
+pub fn queries_for(zone: &str, tab: &Value, r: &mut Rng, cap: usize, thorough: bool) -> Vec<Q> {
     let mut q: Vec<Q> = Vec::new();
     let off_q = |q: &mut Vec<Q>, sec: i64, ns: i64| q.push(Q { op: "Tzdb.offset", args: json!({"zone": zone, "t": pt(sec, ns)}) });
     let loc_q = |q: &mut Vec<Q>, sec: i64, ns: i64| q.push(Q { op: "Tzdb.local", args: json!({"zone": zone, "local": local_json(sec, ns)}) });
@@ -128,6 +132,236 @@ fn queries_for(zone: &str, tab: &Value, r: &mut Rng, cap: usize, thorough: bool)
     q
 }
 
+
+// ---------- synthetic TZif descriptions ----------
+// Everything below only chooses inputs. The footer is kept consistent with the last table transition (RFC 8536 3.3) by
+// the driver's own reading of the rule; if that reading were wrong the trace spec would report `table-ill-formed`.
+#[derive(Clone, Debug)]
+pub struct Rule { pub k: char, pub m: i64, pub w: i64, pub d: i64, pub n: i64, pub t: i64 }
+impl Rule {
+    fn json(&self) -> Value { match self.k { 'M' => json!({"k": "M", "m": self.m, "w": self.w, "d": self.d, "t": self.t}), 'J' => json!({"k": "J", "n": self.n, "t": self.t}), _ => json!({"k": "N", "n": self.n, "t": self.t}) } }
+    fn text(&self) -> String {
+        let day = match self.k { 'M' => format!("M{}.{}.{}", self.m, self.w, self.d), 'J' => format!("J{}", self.n), _ => format!("{}", self.n) };
+        if self.t == 7200 { day } else { format!("{}/{}", day, hms(self.t)) }
+    }
+}
+/// [+|-]h[:mm[:ss]]. The tzif crate's parser reads "-0:30" as +0:30, so values in (-3600, 0) are never produced (see `avoid`).
+fn hms(v: i64) -> String {
+    let a = v.abs(); let (h, m, s) = (a / 3600, a % 3600 / 60, a % 60);
+    assert!(!(v < 0 && h == 0), "HARNESS: -0:mm is not representable for the parser");
+    let mut o = format!("{}{}", if v < 0 { "-" } else { "" }, h);
+    if m != 0 || s != 0 { o += &format!(":{:02}", m); }
+    if s != 0 { o += &format!(":{:02}", s); }
+    o
+}
+/// move a value out of (-3600, 0)
+fn avoid(v: i64) -> i64 { if v < 0 && v > -3600 { v - 3600 } else { v } }
+#[derive(Clone, Debug)]
+pub struct Footer { pub std: i64, pub dst: Option<(i64, Rule, Rule)> }
+impl Footer {
+    /// POSIX offsets are west-positive
+    fn text(&self) -> String {
+        match &self.dst { None => format!("AAA{}", hms(-self.std)),
+                          Some((d, s, e)) => format!("AAA{}BBB{},{},{}", hms(-self.std), hms(-d), s.text(), e.text()) }
+    }
+    /// the driver's reading: DST on [start - std, end - dst) per year, running into the next year when start comes after end
+    fn off_at(&self, t: i64) -> i64 {
+        let Some((dst, s, e)) = &self.dst else { return self.std };
+        let y0 = civil(t.div_euclid(86_400)).0;
+        for y in y0 - 1..=y0 + 1 {
+            let a = rule_local(&s.json(), y) - self.std; let b = rule_local(&e.json(), y) - dst;
+            let b = if a < b { b } else { rule_local(&e.json(), y + 1) - dst };
+            if a <= t && t < b { return *dst; }
+        }
+        self.std
+    }
+}
+/// an east offset that the POSIX string can carry: |hours| <= 24 and not in (0, 3600) (west-positive "-0:mm")
+fn footer_off(v: i64) -> i64 { let v = v.clamp(-24 * 3600 - 3599, 24 * 3600 + 3599); if v > 0 && v < 3600 { v + 3600 } else { v } }
+fn rule_time(r: &mut Rng, odd: bool) -> i64 {
+    if !odd { return *r.pick(&[7200i64, 7200, 3600, 0, 10_800, 9000]); }
+    avoid(match r.range(0, 6) { 0 => -3600, 1 => 26 * 3600, 2 => -r.range(1, 167) * 3600, 3 => r.range(25, 167) * 3600, 4 => 24 * 3600, 5 => r.range(-100_000, 200_000), _ => -(r.range(3600, 90_000)) })
+}
+fn m_rule(r: &mut Rng, m: i64, odd: bool, k: usize) -> Rule {
+    // week 5 ("last") and every weekday come up deterministically with k
+    let w = if k % 2 == 0 { 5 } else { r.range(1, 4) };
+    Rule { k: 'M', m, w, d: (k as i64 / 2) % 7, n: 0, t: rule_time(r, odd) }
+}
+/// footer shapes; `k` counts how often this shape has been used (varies the deterministic parameters)
+pub const FOOTER_SHAPES: usize = 12;
+pub fn synth_footer(r: &mut Rng, shape: usize, k: usize) -> Option<Footer> {
+    let base = footer_off(*r.pick(&[0i64, 3600, -18_000, 19_800, 34_200, 43_200, -39_600, 46_800, -12_600]));
+    let plus = |std: i64, d: i64| footer_off(std + d);
+    // two months / day numbers at least two months apart in both directions
+    let m1 = r.range(1, 12); let gap = r.range(2, 10); let m2 = (m1 - 1 + gap) % 12 + 1;
+    let (lo, hi) = (m1.min(m2), m1.max(m2));
+    let n1 = r.range(1, 365); let n2 = (n1 - 1 + r.range(45, 320)) % 365 + 1;
+    let special_j = [1i64, 59, 60, 61, 365, 200];
+    let special_n = [0i64, 58, 59, 60, 364, 365, 150];
+    Some(match shape {
+        0 => Footer { std: if k % 2 == 0 { base } else { footer_off(r.range(-50_000, 50_000)) }, dst: None },
+        1 => Footer { std: base, dst: Some((plus(base, 3600), m_rule(r, lo, false, k), m_rule(r, hi, false, k + 7))) },              // north
+        2 => Footer { std: base, dst: Some((plus(base, 3600), m_rule(r, hi, false, k), m_rule(r, lo, false, k + 3))) },              // south
+        3 => Footer { std: base, dst: Some((plus(base, -3600), if k % 2 == 0 { m_rule(r, hi, false, k) } else { m_rule(r, lo, false, k) },
+                                             if k % 2 == 0 { m_rule(r, lo, false, k + 1) } else { m_rule(r, hi, false, k + 1) })) }, // negative DST
+        4 => { let a = if k % 2 == 0 { special_j[(k / 2) % special_j.len()] } else { n1 }; let b = (a - 1 + r.range(45, 320)) % 365 + 1;
+               Footer { std: base, dst: Some((plus(base, 3600), Rule { k: 'J', m: 0, w: 0, d: 0, n: a, t: rule_time(r, false) }, Rule { k: 'J', m: 0, w: 0, d: 0, n: b, t: rule_time(r, false) })) } }
+        5 => { let a = if k % 2 == 0 { special_n[(k / 2) % special_n.len()] } else { n1 - 1 }; let b = (a + r.range(45, 320)) % 365;
+               Footer { std: base, dst: Some((plus(base, 3600), Rule { k: 'N', m: 0, w: 0, d: 0, n: a, t: rule_time(r, false) }, Rule { k: 'N', m: 0, w: 0, d: 0, n: b, t: rule_time(r, false) })) } }
+        // mixed day kinds in one footer (valid POSIX): J60 with M11.1.0 first, then every pairing
+        6 => { let j = Rule { k: 'J', m: 0, w: 0, d: 0, n: if k == 0 { 60 } else { r.range(50, 120) }, t: 7200 };
+               let m = if k == 0 { Rule { k: 'M', m: 11, w: 1, d: 0, n: 0, t: 7200 } } else { let mm = r.range(8, 11); m_rule(r, mm, false, k) };
+               let n = Rule { k: 'N', m: 0, w: 0, d: 0, n: r.range(240, 330), t: 7200 };
+               let (s, e) = match k % 6 { 0 => (j, m), 1 => (m, j), 2 => (j, n), 3 => (n, j), 4 => (Rule { n: r.range(50, 120), ..n }, m), _ => (m, Rule { n: r.range(50, 120), ..n }) };
+               Footer { std: base, dst: Some((plus(base, 3600), s, e)) } }
+        // rule times that are negative or beyond 24 h: M3.5.0/-1 and M10.5.0/26 first
+        7 => { let (s, e) = if k == 0 { (Rule { k: 'M', m: 3, w: 5, d: 0, n: 0, t: -3600 }, Rule { k: 'M', m: 10, w: 5, d: 0, n: 0, t: 26 * 3600 }) }
+                            else if k % 2 == 0 { (m_rule(r, lo, true, k), m_rule(r, hi, true, k + 1)) } else { (m_rule(r, hi, true, k), m_rule(r, lo, true, k + 1)) };
+               Footer { std: base, dst: Some((plus(base, 3600), s, e)) } }
+        // offsets with seconds, large offsets, DST steps other than one hour
+        8 => { let std = footer_off(match k % 4 { 0 => r.range(-50_000, 50_000), 1 => *r.pick(&[54_000i64, -54_000, 86_400, -86_400, 89_999, -89_999]), 2 => r.range(50_000, 89_999), _ => -r.range(50_000, 89_999) });
+               let step = *r.pick(&[3600i64, 1800, 7200, 1200, 3601, 5400]);
+               let dst = footer_off(if std + step > 89_999 { std - step } else { std + step });
+               Footer { std, dst: Some((dst, m_rule(r, lo, false, k), m_rule(r, hi, false, k + 2))) } }
+        // no footer at all (the empty TZ string of RFC 8536)
+        9 => return None,
+        // J / N rules with odd times and other steps, north and south
+        10 => { let (a, b) = if k % 2 == 0 { (n1, n2) } else { (n2, n1) };
+                let mk = |r: &mut Rng, kind: char, n: i64| Rule { k: kind, m: 0, w: 0, d: 0, n: if kind == 'N' { n - 1 } else { n }, t: rule_time(r, true) };
+                let kind = if k % 4 < 2 { 'J' } else { 'N' };
+                Footer { std: base, dst: Some((plus(base, *r.pick(&[3600i64, 1800, 7200, -3600])), mk(r, kind, a), mk(r, kind, b))) } }
+        // all-year DST, the way zic writes it (start J1/0 or 0/0, end J365/25 or J365/23): DST never ends
+        _ => { let dst = plus(base, 3600);
+               let s = if k % 2 == 0 { Rule { k: 'N', m: 0, w: 0, d: 0, n: 0, t: 0 } } else { Rule { k: 'J', m: 0, w: 0, d: 0, n: 1, t: 0 } };
+               Footer { std: base, dst: Some((dst, s, Rule { k: 'J', m: 0, w: 0, d: 0, n: 365, t: 24 * 3600 + (dst - base) })) } }
+    })
+}
+
+/// table shapes: (types, transitions) with strictly increasing times
+pub const TABLE_SHAPES: usize = 7;
+pub fn synth_table(r: &mut Rng, shape: usize, k: usize) -> (Vec<(i64, bool)>, Vec<(i64, usize)>) {
+    let day = |y: i64, m: i64, d: i64| days_from_civil(y, m, d) * 86_400;
+    let t0 = day(r.range(1850, 2030), r.range(1, 12), r.range(1, 28)) + r.range(0, 86_399);
+    match shape {
+        0 => (vec![(*r.pick(&[0i64, 3600, -28_800, 20_700]), false)], vec![]),
+        1 => { let a = r.range(-50_000, 50_000); let b = *r.pick(&[a + 3600, a - 3600, a / 900 * 900, a + 1, a - 86_400 + 100, a]);
+               (vec![(a, false), (b, k % 2 == 1)], vec![(t0, 1)]) }
+        // yearly DST pairs, like real zones
+        2 => { let o = *r.pick(&[0i64, 3600, -18_000, 34_200, 45_900]); let y0 = r.range(1900, 2030);
+               let mut tr = Vec::new();
+               for y in y0..y0 + r.range(3, 9) { tr.push((day(y, 3, r.range(1, 31)) + r.range(0, 86_399), 1)); tr.push((day(y, 10, r.range(1, 31)) + r.range(0, 86_399), 0)); }
+               (vec![(o, false), (o + 3600, true)], tr) }
+        // irregular and close transitions: seconds, minutes, an hour apart, around the sizes of the offset changes
+        3 => { let o = *r.pick(&[0i64, 7200, -10_800, 19_800]);
+               let types = vec![(o, false), (o + 3600, true), (o + 1800, false), (o - 3600, false), (o + 7200, true)];
+               let gaps = [1i64, 1, 2, 59, 60, 61, 600, 1799, 1800, 1801, 3599, 3600, 3601, 7199, 7200, 7201, 86_399, 86_400, 86_401, 40 * 86_400];
+               let mut tr = Vec::new(); let mut t = t0; let mut cur = 0usize;
+               for i in 0..r.range(6, 14) { let mut ty = r.range(0, 4) as usize; if ty == cur { ty = (ty + 1) % 5; }
+                   tr.push((t, ty)); cur = ty; t += if i as usize % 5 == k % 5 { 1 } else { *r.pick(&gaps) }; }
+               (types, tr) }
+        // many local time types, offsets with seconds
+        4 => { let nt = r.range(12, 40) as usize;
+               let types: Vec<(i64, bool)> = (0..nt).map(|i| (if i % 3 == 0 { r.range(-50_400, 50_400) } else { r.range(-56, 56) * 900 }, r.chance(1, 3))).collect();
+               let mut tr = Vec::new(); let mut t = t0 - 50 * 365 * 86_400;
+               for i in 0..r.range(nt as i64, 60) { tr.push((t, if (i as usize) < nt { (i as usize + 1) % nt } else { r.range(0, nt as i64 - 1) as usize }));
+                   t += match r.range(0, 3) { 0 => r.range(3600, 200_000), 1 => r.range(200_000, 30 * 86_400), _ => r.range(30 * 86_400, 3 * 365 * 86_400) }; }
+               (types, tr) }
+        // large offsets: +-15 h .. +-25 h, date-line style jumps of a whole day
+        5 => { let big = [54_000i64, -54_000, 64_800, -64_800, 86_400, -86_400, 89_999, -89_999, 93_599, 50_400, -43_200, 46_800];
+               let nt = r.range(3, 7) as usize;
+               let types: Vec<(i64, bool)> = (0..nt).map(|i| (if i == 1 && k % 2 == 0 { -43_200 } else if i == 2 && k % 2 == 0 { 43_200 } else { *r.pick(&big) }, r.chance(1, 4))).collect();
+               let mut tr = Vec::new(); let mut t = t0;
+               for i in 0..r.range(3, 10) { tr.push((t, (i as usize + 1) % nt)); t += r.range(2 * 86_400, 4 * 365 * 86_400); }
+               (types, tr) }
+        // local mean time with seconds, then changes of the DST flag / designation only (same offset)
+        _ => { let lmt = r.range(-50_000, 50_000); let o = (lmt + 450).div_euclid(900) * 900;
+               let types = vec![(lmt, false), (o, false), (o, true), (o + 3600, true), (o, false)];
+               (types, vec![(t0 - 80 * 365 * 86_400, 1), (t0, 2), (t0 + r.range(1, 400) * 86_400, 3), (t0 + 500 * 86_400, 4), (t0 + 500 * 86_400 + r.range(1, 7200), 1)]) }
+    }
+}
+
+/// the i-th synthetic description: table shape x footer shape (both cycle, so every shape comes up every few zones)
+pub fn synth_desc(r: &mut Rng, i: usize) -> Value {
+    // zone i = TABLE_SHAPES * a + ts: for every table shape the footer shape runs through all of them as a grows, and
+    // consecutive zones differ in both (84 zones = the full cross product)
+    let shape_of = |j: usize| (j % TABLE_SHAPES, (j / TABLE_SHAPES + 5 * (j % TABLE_SHAPES)) % FOOTER_SHAPES);
+    let (ts, fs) = shape_of(i);
+    let (mut types, mut trans) = synth_table(r, ts, i / TABLE_SHAPES);
+    // RFC 8536: utoff SHOULD be in [-89999, 93599] (the library assumes |offset| < 26 h)
+    for t in types.iter_mut() { t.0 = t.0.clamp(-89_999, 93_599); }
+    // how often this footer shape has come up before: the deterministic variants of a shape come in that order
+    let footer = synth_footer(r, fs, (0..i).filter(|j| shape_of(*j).1 == fs).count());
+    if let (Some(f), Some(&(last, _))) = (&footer, trans.last()) {
+        // the footer continues the table: one more transition, into the type the footer prescribes at that second
+        let mut t = last + match r.range(0, 3) { 0 => 1, 1 => r.range(2, 86_400), _ => r.range(86_400, 2 * 365 * 86_400) };
+        // every fourth zone: the table ends less than a day before a rule transition of the footer
+        if let (Some((dst, s, _)), true) = (&f.dst, i % 4 == 1) {
+            let y = civil(t.div_euclid(86_400)).0 + 1;
+            let ev = rule_local(&s.json(), y) - f.std.min(*dst) - r.range(1, 80_000);
+            if ev > last { t = ev; }
+        }
+        let off = f.off_at(t);
+        let is_dst = f.dst.as_ref().map(|d| d.0 == off && d.0 != f.std).unwrap_or(false);
+        let ty = types.iter().position(|x| *x == (off, is_dst)).unwrap_or_else(|| { types.push((off, is_dst)); types.len() - 1 });
+        trans.push((t, ty));
+    }
+    json!({"types": types.iter().map(|(o, d)| json!({"off": o, "dst": d})).collect::<Vec<_>>(),
+           "trans": trans.iter().map(|(t, ty)| json!({"d": t.div_euclid(86_400), "s": t.rem_euclid(86_400), "ty": ty + 1})).collect::<Vec<_>>(),
+           "footer": footer.map(|f| f.text()).unwrap_or_default()})
+}
+
+fn synth(t: &mut Tracer, r: &mut Rng, cap: usize, nzones: usize, part: usize, nparts: usize) {
+    // writer self-check (not part of the trace): real files re-written from their parsed content parse to the same tables
+    for z in ["Europe/Dublin", "America/New_York", "Africa/Casablanca", "Australia/Lord_Howe", "UTC", "America/Nuuk"] {
+        if let Err(e) = crate::synth_tzif::roundtrip_real(z) { panic!("HARNESS: TZif writer round trip failed for {}: {}", z, e); }
+    }
+    let mine: Vec<usize> = (0..nzones).filter(|i| i % nparts == part).collect();
+    let base = r.0;
+    for group in mine.chunks(3) {
+        t.call("Tzdb.fresh", json!({}));
+        let mut asked: Vec<(String, Value)> = Vec::new();
+        for &i in group {
+            // every zone has its own stream: the i-th description does not depend on how the zones are split into parts
+            let mut zr = Rng::new(base ^ (i as u64).wrapping_mul(0x9E37_79B9_7F4A_7C15));
+            let z = format!("synth/{}", i);
+            let desc = synth_desc(&mut zr, i);
+            t.call("Tzdb.define", json!({"zone": z, "desc": desc}));
+            let tab = t.call("Tzdb.table", json!({"zone": z}));
+            if tab["kind"] != "ok" {
+                // bytes rejected by the parser: the zone does not exist for the provider either
+                t.call("Tzdb.offset", json!({"zone": z, "t": pt(1_000_000_000, 0)}));
+                t.call("Tzdb.local", json!({"zone": z, "local": local_json(1_000_000_000, 0)}));
+                continue;
+            }
+            // (the thorough tier has seven times the zones and a larger cap, not the every-year sweep of the real zones)
+            let qs = queries_for(&z, &tab["val"], &mut zr, cap, false);
+            for (j, q) in qs.into_iter().enumerate() {
+                t.call(q.op, q.args.clone());
+                if j % 37 == 5 { asked.push((q.op.to_string(), q.args)); }
+            }
+            // the days around the rule transitions of three years (after the table): noon, as an instant and as a wall-clock reading
+            let f = &tab["val"]["footer"];
+            if f["kind"] == "rule" {
+                let tr = tab["val"]["trans"].as_array().unwrap();
+                let after = tr.last().map(|x| civil(x["d"].as_i64().unwrap()).0 + 1).unwrap_or(1965);
+                let (std, dst) = (f["std"].as_i64().unwrap(), f["dst"].as_i64().unwrap());
+                for y in [after, after.max(2037) + 3, after.max(2100) + zr.range(1, 200)] {
+                    for (rule, off) in [(&f["start"], std), (&f["end"], dst)] {
+                        let ev = rule_local(rule, y) - off;
+                        for dd in [-20i64, -9, -4, -2, -1, 1, 2, 4, 9, 20] {
+                            let at = (ev + dd * 86_400).div_euclid(86_400) * 86_400 + 43_200;
+                            t.call("Tzdb.offset", json!({"zone": z, "t": pt(at, 0)}));
+                            t.call("Tzdb.local", json!({"zone": z, "local": local_json(at, 0)}));
+                        }
+                    }
+                }
+            }
+        }
+        for _ in 0..asked.len().min(20) { let (op, args) = r.pick(&asked).clone(); t.call(&op, args); }
+        t.reset();
+    }
+}
+
 fn lookup(t: &mut Tracer, r: &mut Rng, cap: usize, part: usize, nparts: usize) {
     let thorough = std::env::var("VERIF_TIER").map(|v| v == "thorough").unwrap_or(false);
     let all: Vec<String> = if thorough { iana_names() } else { QUICK_ZONES.iter().map(|s| s.to_string()).collect() };
@@ -186,6 +420,7 @@ fn ids(t: &mut Tracer, r: &mut Rng) {
     }
 }
 
+fn nparts_or(a: &[String], i: usize) -> usize { a.get(i).and_then(|s| s.parse().ok()).unwrap_or(0) }
 pub fn drive(t: &mut Tracer, r: &mut Rng, n: usize) {
     // extra arguments after `record c15 <seed> <n> <out>`: mode [part nparts]
     let a: Vec<String> = std::env::args().collect();
@@ -194,6 +429,8 @@ pub fn drive(t: &mut Tracer, r: &mut Rng, n: usize) {
     let nparts: usize = a.get(8).and_then(|s| s.parse().ok()).unwrap_or(1);
     match mode {
         "ids" => ids(t, r),
+        // synth <nzones> [part nparts]
+        "synth" => synth(t, r, n.max(4), part.max(1), nparts_or(&a, 8), a.get(9).and_then(|s| s.parse().ok()).unwrap_or(1)),
         _ => lookup(t, r, n.max(4), part, nparts),
     }
 }
